@@ -1,3 +1,4 @@
+import Agd.Tie.TrC13
 import Agd.Lemmas.Refresh
 import Agd.Tie.C13
 /-!
@@ -957,3 +958,8 @@ end Agd.Refresh
 #print axioms Agd.Refresh.take_filter_prefix
 #print axioms Agd.Refresh.addUntilCancel_prefix
 #print axioms Agd.Refresh.cancelled_round_safe
+#print axioms Agd.Tie.TrC13.translation_complete
+#print axioms Agd.Tie.TrC13.cleanup_or_replace
+#print axioms Agd.Tie.TrC13.replace_only_after_complete_download
+#print axioms Agd.Tie.TrC13.empty_body_rejected
+#print axioms Agd.Tie.TrC13.url_only_when_cache_is_stale
